@@ -255,29 +255,42 @@ Section Shapes.
     rewrite !andb_true_iff, !(eqb_eq CMP). intuition congruence.
   Qed.
 
-  Lemma apply_tf_identity l : apply_tf N (mI N) l = Some l.
+  Lemma apply_tf_identity c l : apply_tf N c (mI N) l = Some l.
   Proof. unfold apply_tf. rewrite mat_eqb_refl. reflexivity. Qed.
 
   Lemma pt_apply_I (p : pt) : pt_apply N (mI N) p = p.
   Proof. destruct p; unfold pt_apply, mI; cbn; f_equal; ring. Qed.
 
-  Lemma apply_tf_bezier M l :
+  Lemma apply_tf_bezier c M l :
     existsb (@is_arc K) l = false ->
-    exists l', apply_tf N M l = Some l' /\
+    exists l', apply_tf N c M l = Some l' /\
                (M = mI N -> l' = l) /\ (M <> mI N -> l' = map (seg_affine N M) l).
   Proof.
     intros Ha. unfold apply_tf. destruct (mat_eqb N M (mI N)) eqn:E.
     - exists l. apply mat_eqb_eq in E. repeat split; auto. intros; contradiction.
-    - rewrite Ha. eexists; repeat split; auto.
+    - rewrite Ha. cbn [andb]. eexists; repeat split; auto.
       intros ->. rewrite mat_eqb_refl in E. discriminate.
   Qed.
 
-  Lemma apply_tf_arc_raises M l :
-    M <> mI N -> existsb (@is_arc K) l = true -> apply_tf N M l = None.
+  Lemma apply_tf_arc_raises c M l :
+    f_arc_tf c = false ->
+    M <> mI N -> existsb (@is_arc K) l = true -> apply_tf N c M l = None.
   Proof.
-    intros HM Ha. unfold apply_tf.
+    intros Hc HM Ha. unfold apply_tf.
     destruct (mat_eqb N M (mI N)) eqn:E; [apply mat_eqb_eq in E; contradiction|].
-    rewrite Ha. reflexivity.
+    rewrite Ha, Hc. reflexivity.
+  Qed.
+
+  (* repaired Arc branch: transform() never raises; every segment's points are mapped *)
+  Lemma apply_tf_total c M l :
+    f_arc_tf c = true ->
+    exists l', apply_tf N c M l = Some l' /\
+               (M = mI N -> l' = l) /\ (M <> mI N -> l' = map (seg_affine N M) l).
+  Proof.
+    intros Hc. unfold apply_tf. rewrite Hc, andb_false_r.
+    destruct (mat_eqb N M (mI N)) eqn:E.
+    - exists l. apply mat_eqb_eq in E. repeat split; auto. intros; contradiction.
+    - eexists; repeat split; auto. intros ->. rewrite mat_eqb_refl in E. discriminate.
   Qed.
 
   (* repaired SaxDocument (order and keep): flatten_all_paths is the reference
@@ -286,7 +299,7 @@ Section Shapes.
     let '(k, a, M) := o in
     match convert N c RSax k a with
     | None => None
-    | Some s => match apply_tf N M s with
+    | Some s => match apply_tf N c M s with
                 | Some s' => Some (a_id a, s')
                 | None => None
                 end
@@ -302,7 +315,7 @@ Section Shapes.
     apply mapM_ext. intros [[k a] m]. cbn [fst snd sax_ref_entry].
     destruct (convert N c RSax k a) as [s|]; cbn [option_map]; [|reflexivity].
     unfold sax_flat_entry. destruct m as [M|]; cbn [odefm].
-    - rewrite Hk. destruct (apply_tf N M s); reflexivity.
+    - rewrite Hk. destruct (apply_tf N c M s); reflexivity.
     - rewrite apply_tf_identity. reflexivity.
   Qed.
 End Shapes.
